@@ -269,6 +269,19 @@ func c18eLocated(c *Ctx, nr, np *ssa.Function) {
 			ev := r.Results[len(r.Results)-1]
 			call, isCall := ev.(*ssa.Call)
 			ok := isCall && (callee(call) == np || callee(call) == nr)
+			// ... or by a helper of the package that does nothing but build such an error
+			if !ok && isCall {
+				if g := callee(call); g != nil && c.W.InRepo(g) && len(g.Blocks) > 0 {
+					all := true
+					for _, gr := range returnsOf(g) {
+						inner, isInner := gr.Results[len(gr.Results)-1].(*ssa.Call)
+						if !isInner || !(callee(inner) == np || callee(inner) == nr) {
+							all = false
+						}
+					}
+					ok = all && len(returnsOf(g)) > 0
+				}
+			}
 			c.Check(ok, fmt.Sprintf("%s/clash-error-located#%d", c.W.FuncKey(fn), i), c.W.Pos(r.Pos()), "a name clash found while rendering is reported with a source range", fn.Name()+" reports a name clash with "+pretty(c.term(fn, ev))+", which carries no source range: the error must be built with NewParseError at the clashing label")
 		}
 	}
